@@ -52,7 +52,7 @@ E(name, kind, phases, tpls) == [name |-> name, kind |-> kind, phases |-> phases,
 
 RtpTpls  == {"rtp.plain", "rtp.ext1", "rtp.ext2", "rtp.pad", "rtp.stapa", "rtp.fua", "rtp.rtx"}
 RtcpTpls == {"rtcp.sr", "rtcp.rr", "rtcp.sdes", "rtcp.bye", "rtcp.nack", "rtcp.twcc", "rtcp.pli", "rtcp.fir",
-             "rtcp.remb", "rtcp.compound", "rtcp.padded"}
+             "rtcp.remb", "rtcp.compound", "rtcp.padded", "rtcp.compound_padlast", "rtcp.compound_padmid"}
 StunTpls == {"stun.binding_req", "stun.binding_ok4", "stun.binding_ok6", "stun.alloc_ok", "stun.error401",
              "stun.data_ind"}
 DgTpls   == {"dg.clienthello", "dg.serverhello", "dg.hvr", "dg.cert", "dg.ske", "dg.shd", "dg.cke", "dg.frag", "dg.opaque"}
@@ -123,6 +123,15 @@ Modelled(e) == PhasesOf(e) \cup (IF Entry(e).kind = "endpoint" THEN Terminal ELS
 ---------------------------------------------------------------------------
 (* Mutations and their applicability to a leaf                              *)
 
+\* a count that is measured backwards from the end of its group (tail leaf: the RTP / RTCP pad count) set relative to
+\* the lengths around it: rel_g_* = length of its own group (what the count may at most consume: RTCP body, RTP payload
+\* + padding) - 4 .. + 4; rel_e_* = length of the group around that one (the RTCP packet with its header; the whole
+\* message when there is none) - 4 .. + 1.  Between the two lies the window "more than the body, less than the packet".
+RelMuts == {"rel_g_m4", "rel_g_m3", "rel_g_m2", "rel_g_m1", "rel_g_0", "rel_g_p1", "rel_g_p2", "rel_g_p3", "rel_g_p4",
+            "rel_e_m4", "rel_e_m3", "rel_e_m2", "rel_e_m1", "rel_e_0", "rel_e_p1"}
+
+FlagRelMuts == {"rel_g_m1", "rel_g_0", "rel_g_p1", "rel_g_p2", "rel_g_p3", "rel_g_p4"}
+
 AllMuts == {"trunc_before", "trunc_before_fix", "trunc_inside", "trunc_inside_fix",
             "len_0", "len_m1", "len_p1", "len_max",
             "count_0", "count_p1", "count_max",
@@ -130,7 +139,7 @@ AllMuts == {"trunc_before", "trunc_before_fix", "trunc_inside", "trunc_inside_fi
             "list_plus1", "list_minus1", "swap", "nest",
             "seq_m1", "seq_p1", "seq_p2", "seq_p32768", "seq_half",
             "lst_empty_mid", "lst_lead", "lst_trail", "lst_only_sep", "lst_multibyte", "lst_multibyte_first",
-            "lst_prefix_only", "lst_many", "lst_long"}
+            "lst_prefix_only", "lst_many", "lst_long"} \cup RelMuts
 
 Applicable(l, m) ==
   IF l.k \in TextKinds
@@ -163,6 +172,12 @@ Applicable(l, m) ==
          \* sequence numbers relative to the endpoint's current value of that sequence space: one behind, the next,
          \* one gap, 2^15 ahead, and the farthest value serial arithmetic still calls "ahead" (2^(bits-1) - 1)
          [] m \in {"seq_m1", "seq_p1", "seq_p2", "seq_p32768", "seq_half"} -> l.sq # ""
+         \* a backwards count at the end of a group: values relative to the enclosing lengths
+         \* ... and on the flag that announces such a count where the genuine message has none (the P bit set on an
+         \* unpadded packet: the last octet of whatever is there becomes the count): the flag set and that octet at
+         \* the length of the group it counts in - 1 .. + 4
+         [] m \in RelMuts -> \/ l.tail /\ l.k \in {"len", "count"}
+                             \/ l.pf # "" /\ m \in FlagRelMuts
          [] OTHER -> FALSE
 
 MaxLeaves == 100
